@@ -73,6 +73,20 @@ theorem file_profile_partition (e : FileEntry) :
   simp only [FileEntry.profile]
   rw [h0, h1, h2, h3, bucketSum_total]
 
+/-- (2, in the words of the property) **a file's profile partitions its LINE TOTAL** `loc` by
+category - for every entry whose stored line total is the sum of its function lengths.  `loc` is an
+independent constructor argument of `SourceFileEntry`; that `_analyze_file` passes the sum is
+`C05.total_is_sum`, and every entry of a scan's report satisfies the hypothesis
+(`Pipe.report_measurements_wf`, `Pipe.report_file_profiles`).  Without the hypothesis the clause is
+false: an entry built by hand with `loc = 5` and no measurements has profile `[0, 0, 0, 0]`. -/
+theorem file_profile_partition_loc (e : FileEntry) (hloc : e.loc = e.measurements.sum) :
+    e.profile.p0 + e.profile.p1 + e.profile.p2 + e.profile.p3 = e.loc := by
+  rw [hloc]; exact (file_profile_partition e).2
+
+/-- the hypothesis of `file_profile_partition_loc` is needed -/
+example : ∃ e : FileEntry, e.profile.p0 + e.profile.p1 + e.profile.p2 + e.profile.p3 ≠ e.loc :=
+  ⟨⟨[], [], [], 5, []⟩, by decide⟩
+
 /-- (2') the `files` dict holds exactly the added entries, in insertion order -/
 theorem files_dict (es : List FileEntry) (hadm : Admissible es) (hnd : (es.map (·.path)).Nodup)
     {cb : Codebase} (h : Codebase.build es = .ok cb) : cb.files = es.map fun e => (e.path, e) := by
